@@ -463,6 +463,62 @@ func propC02(c *Ctx) {
 			}
 		}
 	}
+	// ... or the guard is a predicate helper that receives the callee and returns
+	// anything but false only behind that comparison
+	if !sameCallee {
+		for _, g := range guardEdges(fast.Block()) {
+			cl, ok := g.If.Cond.(*ssa.Call)
+			if !ok || !g.Truth {
+				continue
+			}
+			h := cl.Call.StaticCallee()
+			if h == nil || len(h.Blocks) == 0 || funcPkgPath(h) != modPath {
+				continue
+			}
+			var hp *ssa.Parameter
+			for i, a := range cl.Call.Args {
+				if a == cfParam && i < len(h.Params) {
+					hp = h.Params[i]
+				}
+			}
+			if hp == nil {
+				continue
+			}
+			all, n := true, 0
+			for _, hb := range h.Blocks {
+				ret, ok := hb.Instrs[len(hb.Instrs)-1].(*ssa.Return)
+				if !ok || len(ret.Results) != 1 {
+					continue
+				}
+				if k, ok := ret.Results[0].(*ssa.Const); ok && k.Value != nil && k.Value.Kind() == constant.Bool && !constant.BoolVal(k.Value) {
+					continue
+				}
+				n++
+				guarded := false
+				for _, hg := range guardEdges(hb) {
+					bo, ok := hg.If.Cond.(*ssa.BinOp)
+					if !ok || !((bo.Op == token.EQL && hg.Truth) || (bo.Op == token.NEQ && !hg.Truth)) {
+						continue
+					}
+					for _, pr := range [][2]ssa.Value{{bo.X, bo.Y}, {bo.Y, bo.X}} {
+						if pr[0] == ssa.Value(hp) {
+							if u, ok := pr[1].(*ssa.UnOp); ok {
+								if _, ok := isFieldAddrOf(u.X, modPath, "frame", fFn); ok {
+									guarded = true
+								}
+							}
+						}
+					}
+				}
+				if !guarded {
+					all = false
+				}
+			}
+			if all && n > 0 {
+				sameCallee = true
+			}
+		}
+	}
 	c.Check(rt, "fast path only for the current frame's own function", pos, sameCallee, "dominated by callee == curFrame.fn", "the frame is reused for a callee that is not proven to be the function of the current frame: locals and free variables of another function are reused")
 	// (b) continuation: collect every comparison of an instruction byte with an
 	// opcode constant among the conditions that lead to the fast path (in the
